@@ -358,7 +358,10 @@ def __calc_sample_con_eta_bisect(
         else:
             return
     else:
-        asin_thomega = asin(sin_eta / sin_qaz)
+        try:
+            asin_thomega = asin(bound(sin_eta / sin_qaz))
+        except AssertionError:
+            return
         if is_small(abs(asin_thomega) - pi / 2):
             thomega_vals = [
                 sign(asin_thomega) * pi / 2,
